@@ -6,12 +6,16 @@ TPL = {"orig:P": "P0 {x:name}|{y}", "orig:C": "C0 {y:line}|{x}", "orig:N": "N0 {
        "kw": "KW {x:name}!", "kwn": "KN {x:>{w}}|{y:line}|{x:<{w}}.",
        "kwc": "KC {x:shout}|{y:name}",
        # attributes of a field value, among them the names the template machinery uses for itself
-       "kwa": "KA {pt.value}|{pt.key:name}|{pt.formatter}|{pt.other}|{x}"}
+       "kwa": "KA {pt.value}|{pt.key:name}|{pt.formatter}|{pt.other}|{pt._hidden}|{fn.__name__:name}|{x}"}
 
 
 class Point:
     """a field value with attributes (an enum member has .value, a dict item view .key ...)"""
-    value, key, formatter, other = "pv", "pk", "pf", "po"
+    value, key, formatter, other, _hidden = "pv", "pk", "pf", "po", "ph"
+
+
+def helper_function():
+    """a function-valued field ('Do not change {fn.__name__}')"""
 TTPL = {"o1": "O1 {name:name} at {location.line:line}", "o2": "O2 {name}", "kw": "KW {name:name}!"}
 TITLE = {"orig:P": "Title P", "orig:C": "Title C", "orig:N": None, "o1": "Title one", "o2": "Title two"}
 
@@ -97,7 +101,7 @@ class World:
         from pedal.core.location import Location
         if c == "T":
             return {"location": Location(5), "name": "nm"}
-        return {"x": "vx", "y": 7, "w": 6, "pt": Point()}
+        return {"x": "vx", "y": 7, "w": 6, "pt": Point(), "fn": helper_function}
 
     def expected_message(self, c, m, i):
         """Oracle for MessageDerivation: explicit message, else the template with every field substituted
